@@ -9,7 +9,16 @@ import "github.com/centrifugal/protocol"
 // subscribe command races the subject's unsubscribe command or close, under
 // every schedule within the preemption bound.
 func vh_C07_join_leave_order() {
-	n := vNewNode(Config{})
+	// per-channel write batching on the observer's connection: off, or a delay
+	// (pushes are then flushed by a virtual-timer event)
+	batching := vChoice("batching", 2) == 1
+	cfg := Config{}
+	if batching {
+		cfg.GetChannelBatchConfig = func(ch string) ChannelBatchConfig {
+			return ChannelBatchConfig{MaxDelay: 100_000_000}
+		}
+	}
+	n := vNewNode(cfg)
 	n.OnConnect(func(c *Client) {
 		c.OnSubscribe(func(e SubscribeEvent, cb SubscribeCallback) {
 			cb(SubscribeReply{Options: SubscribeOptions{EmitJoinLeave: true, PushJoinLeave: true}}, nil)
@@ -29,11 +38,17 @@ func vh_C07_join_leave_order() {
 	base := len(otr.frames)
 
 	ender := vChoice("ender", 3) // 0 = client unsubscribe command, 1 = close, 2 = server-side Unsubscribe
-	first := vChoice("first", 2) // which thread is started first
+	first := vChoice("first", 3) // 0/1: racing threads, which one is started first; 2: strictly sequential
+	subDone := false
+	overlap := false // the ending operation started before the subscribe command returned
 	subscribe := func() {
 		sub.HandleCommand(&protocol.Command{Id: 2, Subscribe: &protocol.SubscribeRequest{Channel: "ch"}}, 0)
+		subDone = true
 	}
 	end := func() {
+		if !subDone {
+			overlap = true
+		}
 		switch ender {
 		case 0:
 			sub.HandleCommand(&protocol.Command{Id: 3, Unsubscribe: &protocol.UnsubscribeRequest{Channel: "ch"}}, 0)
@@ -44,18 +59,28 @@ func vh_C07_join_leave_order() {
 		}
 	}
 	vPreempt(vParam("c07_preempt", 1))
-	if first == 0 {
+	switch first {
+	case 0:
 		go subscribe()
 		go end()
-	} else {
+	case 1:
 		go end()
 		go subscribe()
+	default:
+		vPreempt(0)
+		subscribe()
+		vSettle()
+		end()
 	}
 	vSettle()
 	vPreempt(0)
 	// make sure the subscription has ended before judging pairing
 	_ = sub.close(DisconnectForceNoReconnect)
 	vSettle()
+	if batching {
+		vAdvance(200_000_000) // flush the observer's per-channel batches
+		vSettle()
+	}
 
 	joins, leaves := 0, 0
 	firstJoin, firstLeave := -1, -1
@@ -85,9 +110,10 @@ func vh_C07_join_leave_order() {
 		// publishes the join after the subscription was committed (wait gate
 		// released), so an end of the subscription racing that window emits
 		// its leave first; observers then see [leave, join].
-		vKnown("C07-leave-overtakes-join", firstLeave < firstJoin)
+		vKnown("C07-leave-overtakes-join", overlap && firstLeave < firstJoin)
 		vAssert(firstJoin < firstLeave, "join-before-leave")
 	}
 	vCover(joins == 1, "subscription-established")
 	vCover(joins == 0, "subscription-never-established")
+	vCover(first == 2 && joins == 1 && batching, "sequential-with-batching")
 }
